@@ -532,8 +532,21 @@ impl Model {
         format!("[{}]", names.join(","))
     }
 
-    pub fn observe(&self, fx: &Fixture, extended: bool) -> Obs {
+    /// `ranges = false`: the per-transition observation; `true`: the `get_range` answers
+    /// (checked once per distinct state).
+    pub fn observe(&self, fx: &Fixture, ranges: bool) -> Obs {
         let mut o: Obs = vec![];
+        if ranges {
+            o.push(("get_range(..)".into(), self.range(None, None)));
+            for lo in 1..=fx.n + 1 {
+                o.push((format!("get_range({lo}..)"), self.range(Some(lo), None)));
+                o.push((format!("get_range(..={lo})"), self.range(None, Some(lo))));
+                for hi in lo..=fx.n + 1 {
+                    o.push((format!("get_range({lo}..={hi})"), self.range(Some(lo), Some(hi))));
+                }
+            }
+            return o;
+        }
         o.push(("stored_ranges".into(), runs(self.stored.keys().copied())));
         o.push(("sampled_ranges".into(), runs(self.sampled.iter().copied())));
         o.push(("pruned_ranges".into(), runs(self.pruned.iter().copied())));
@@ -560,16 +573,6 @@ impl Model {
         }
         o.push(("get_by_hash(unknown)".into(), "err:NotFound".into()));
         o.push(("has(unknown)".into(), "false".into()));
-        o.push(("get_range(..)".into(), self.range(None, None)));
-        if extended {
-            for lo in 1..=fx.n + 1 {
-                o.push((format!("get_range({lo}..)"), self.range(Some(lo), None)));
-                o.push((format!("get_range(..={lo})"), self.range(None, Some(lo))));
-                for hi in lo..=fx.n + 1 {
-                    o.push((format!("get_range({lo}..={hi})"), self.range(Some(lo), Some(hi))));
-                }
-            }
-        }
         o
     }
 }
@@ -735,13 +738,26 @@ pub struct Seen {
     has: BTreeMap<Hid, bool>,
 }
 
-pub async fn observe<S: Store>(s: &S, fx: &Fixture, extended: bool) -> Obs {
-    observe_seen(s, fx, extended, &mut Seen::default()).await
+pub async fn observe<S: Store>(s: &S, fx: &Fixture, ranges: bool) -> Obs {
+    observe_seen(s, fx, ranges, &mut Seen::default()).await
 }
 
 /// The total observation: the answer of every query over the whole height / hash universe.
-pub async fn observe_seen<S: Store>(s: &S, fx: &Fixture, extended: bool, seen: &mut Seen) -> Obs {
+pub async fn observe_seen<S: Store>(s: &S, fx: &Fixture, ranges: bool, seen: &mut Seen) -> Obs {
     let mut o: Obs = vec![];
+    if ranges {
+        // get_range is a provided method over head_height + get_by_height: its answers are
+        // checked once per distinct state, not on every transition
+        o.push(("get_range(..)".into(), ans(call(s.get_range(..)).await, |v| fmt_headers(fx, v))));
+        for lo in 1..=fx.n + 1 {
+            o.push((format!("get_range({lo}..)"), ans(call(s.get_range(lo..)).await, |v| fmt_headers(fx, v))));
+            o.push((format!("get_range(..={lo})"), ans(call(s.get_range(..=lo)).await, |v| fmt_headers(fx, v))));
+            for hi in lo..=fx.n + 1 {
+                o.push((format!("get_range({lo}..={hi})"), ans(call(s.get_range(lo..=hi)).await, |v| fmt_headers(fx, v))));
+            }
+        }
+        return o;
+    }
     let stored = call(s.get_stored_header_ranges()).await;
     if let Ok(Ok(r)) = &stored {
         seen.stored = heights_of(r).ok();
@@ -780,16 +796,6 @@ pub async fn observe_seen<S: Store>(s: &S, fx: &Fixture, extended: bool, seen: &
     }
     o.push(("get_by_hash(unknown)".into(), ans(call(s.get_by_hash(&fx.unknown_hash)).await, |h| fx.identify(&h))));
     o.push(("has(unknown)".into(), ans_bool(call(s.has(&fx.unknown_hash)).await)));
-    o.push(("get_range(..)".into(), ans(call(s.get_range(..)).await, |v| fmt_headers(fx, v))));
-    if extended {
-        for lo in 1..=fx.n + 1 {
-            o.push((format!("get_range({lo}..)"), ans(call(s.get_range(lo..)).await, |v| fmt_headers(fx, v))));
-            o.push((format!("get_range(..={lo})"), ans(call(s.get_range(..=lo)).await, |v| fmt_headers(fx, v))));
-            for hi in lo..=fx.n + 1 {
-                o.push((format!("get_range({lo}..={hi})"), ans(call(s.get_range(lo..=hi)).await, |v| fmt_headers(fx, v))));
-            }
-        }
-    }
     o
 }
 
@@ -1519,7 +1525,7 @@ fn expand_runs(s: &str) -> BTreeSet<String> {
 
 pub const RULE: &str = "breadth-first search over ALL operation histories up to the depth bound from the empty store, \
 de-duplicated on the total observation of both backends (answers of every query over heights 0..=N+1 and over the hashes of all \
-fixture headers + one unknown hash). Fixture: honest chain A1..AN and fork B3..BN (B3 child of A2). Alphabet per state: insert \
+fixture headers + one unknown hash; get_range over every bound pair is compared once per distinct state). Fixture: honest chain A1..AN and fork B3..BN (B3 child of A2). Alphabet per state: insert \
 (through the real VerifiedExtendedHeaders::try_from) of every chain of adjacent fixture headers of length <= L (pure A, pure B, and \
 A->B across the fork point); batches that try_from must refuse, derived from every chain of length <= I: reversed, one element \
 doubled, continued by the other chain's header (A/B mixed), one interior element missing (gap, from chains of length <= I+1), and \
@@ -1556,7 +1562,7 @@ pub fn run(id: &str, which: Which) -> ! {
     let (searches, budget): (Vec<Bounds>, u64) = if ctx.replay.is_some() {
         (vec![bounds(6, 4, 3, 4, 0)], 86_400)
     } else if ctx.quick() {
-        (vec![bounds(5, 3, 2, 2, depth_override.unwrap_or(3))], 55)
+        (vec![bounds(5, 3, 2, 2, depth_override.unwrap_or(3))], 57)
     } else {
         (
             vec![
